@@ -17,7 +17,7 @@ SETUPS = [
 
 def templates(tier, seed):
     r = core.rng(seed, "C12")
-    out = ["", "$", "$$", "${x}", "$x", "$1", "${1}a", "$1a", "\\g<x>", "\\1", "\\\\", "${", "${}", "$é", "${-1}", "\\g<-1>", "$-1", "${x", "$x}", "$10", "\\10", "$9", "${_9}", "$_9 ", "$$$", "a$", "$ x", "${n}é", "$né", "\\g<n>é", "$18446744073709551616", "$18446744073709551615", "${18446744073709551616}", "$01", "${01}",
+    out = ["", "$", "$$", "${x}", "$x", "$1", "${1}a", "$1a", "\\g<x>", "\\1", "\\\\", "${", "${}", "$é", "${-1}", "\\g<-1>", "$-1", "${x", "$x}", "$10", "\\10", "$9", "${_9}", "$_9 ", "$$$", "a$", "$ x", "${n}é", "$né", "\\g<n>é", "$18446744073709551616", "$18446744073709551615", "${18446744073709551616}", "$01", "${01}", "\\18446744073709551616", "\\18446744073709551615x", "\\g<18446744073709551616>", "\\g<01>", "\\01", "\\1é", "\\q", "\\gx", "\\g<x", "$é1",
            # runs of the substitution character before a reference
            "$$$1", "$$$$", "$$${x}", "$$$$$1", "$$$x", "a$$$$b", "\\\\\\1", "\\\\\\\\", "\\\\\\g<x>"]
     n = 3 if tier == "quick" else 5
